@@ -97,7 +97,10 @@ pub struct Recorder<B: NetworkBehaviour> {
     /// called for every ToSwarm the inner behaviour emits, before it is handed to the swarm
     pub on_to_swarm: Option<Box<dyn FnMut(&mut B, &ToSwarm<B::ToSwarm, THandlerInEvent<B>>)>>,
     /// called for every handler event before it is forwarded
-    pub on_handler_event: Option<Box<dyn FnMut(PeerId, ConnectionId, &THandlerOutEvent<B>)>>,
+    /// called (with the inner behaviour) for every handler event *before* it is forwarded
+    pub on_handler_event: Option<Box<dyn FnMut(&mut B, PeerId, ConnectionId, &THandlerOutEvent<B>)>>,
+    /// called (with the inner behaviour) right after every FromSwarm event was forwarded
+    pub after_swarm_event: Option<Box<dyn FnMut(&mut B)>>,
 }
 
 #[derive(Debug)]
@@ -111,7 +114,7 @@ impl std::error::Error for Denied {}
 
 impl<B: NetworkBehaviour> Recorder<B> {
     pub fn new(inner: B) -> Self {
-        Recorder { inner, log: Arc::new(Mutex::new(vec![])), deny: Arc::new(Mutex::new(None)), on_idle: None, on_to_swarm: None, on_handler_event: None }
+        Recorder { inner, log: Arc::new(Mutex::new(vec![])), deny: Arc::new(Mutex::new(None)), on_idle: None, on_to_swarm: None, on_handler_event: None, after_swarm_event: None }
     }
     fn push(&self, e: BEv) {
         self.log.lock().unwrap().push(e);
@@ -220,12 +223,16 @@ impl<B: NetworkBehaviour> NetworkBehaviour for Recorder<B> {
         };
         self.push(e);
         self.inner.on_swarm_event(event);
+        if let Some(f) = self.after_swarm_event.as_mut() {
+            f(&mut self.inner);
+        }
     }
 
     fn on_connection_handler_event(&mut self, peer: PeerId, conn: ConnectionId, event: THandlerOutEvent<Self>) {
         self.push(BEv::HandlerEvent { conn, peer });
-        if let Some(f) = self.on_handler_event.as_mut() {
-            f(peer, conn, &event);
+        if let Some(mut f) = self.on_handler_event.take() {
+            f(&mut self.inner, peer, conn, &event);
+            self.on_handler_event = Some(f);
         }
         self.inner.on_connection_handler_event(peer, conn, event);
     }
